@@ -251,6 +251,9 @@ pub fn run(args: &Args) -> Report {
     let mut rep = Report::new("C19", "model_checking");
     if let Some(r) = &args.replay {
         let rp = &r["replay"];
+        if super::gossipnet::replay_fetch(&mut rep, args.seed, rp, &["request_lost", "sent_to_peer_without_block"]) {
+            return rep;
+        }
         if rp["harness"] == "c19-extreme" {
             for (what, rp) in super::c10::stage_semantic_fetch_mismatches(args.seed).1.into_iter().take(1) {
                 rep.violations.push(Violation { key: "extreme_range_decision".into(), what, replay: rp });
@@ -291,6 +294,8 @@ pub fn run(args: &Args) -> Report {
     for (what, rp) in mism.into_iter().take(1) {
         rep.violations.push(Violation { key: "extreme_range_decision".into(), what: format!("[extreme_range_decision] {what}"), replay: rp });
     }
+    // the per-connection fetch loop (gossip/runner.rs) and run_block_fetcher (gossip/mod.rs) on real networks
+    let net_cov = super::gossipnet::report_fetch(&mut rep, args.seed, &["request_lost", "sent_to_peer_without_block"], &|_| true);
     if rep.violations.is_empty() && fails == 0 {
         rep.machinery_errors.push("vacuous: no accepted call ever failed or disconnected".into());
     }
@@ -307,6 +312,7 @@ pub fn run(args: &Args) -> Report {
         "deviation_bound": bound, "exhaustive": !capped, "capped_by_time_budget": capped,
         "witness_failed_or_disconnected_calls": fails,
         "extreme_announced_range_cases": extreme_cases,
+        "real_network_part": net_cov,
         "explorations": stats,
     });
     rep.assumptions = vec!["task switches only at awaits that return Pending; 'lowest missing block first' is checked through the lost-wake-up condition at quiescence, not at every accept".into()];
